@@ -331,10 +331,11 @@ func (h *handle) Remove(fd storage.FileDesc) error {
 	if !storage.FileDescOk(fd) {
 		return storage.ErrInvalidFile
 	}
-	// Not an I/O event: goleveldb removes obsolete files when the last reference to an old
-	// version is released, which may happen in the calling task or in one of goleveldb's own
-	// goroutines depending on real-time scheduling. Counting it would make the event
-	// numbering (crash points, digests) timing dependent. A dead handle still refuses.
+	// Not an I/O event: goleveldb deletes an obsolete table when the last reference to the old version is
+	// released, and whether that happens in the caller's goroutine (a managed task: would be logged and
+	// numbered) or in goleveldb's own compaction goroutine (unmanaged: never logged) depends on real
+	// scheduling. Counting it made event numbers and digests differ between identical runs. Deleting an
+	// obsolete file is no meaningful crash point (leftovers are swept at the next open).
 	if h.dead.Load() {
 		return errDead
 	}
